@@ -185,6 +185,12 @@ const INVALID_TOP_LEVELS: &[&str] = &[
     "rules: [#RULE#], bundle: {require_mode: 'path', unknown: 1}",
     "rules: [#RULE#], bundle: {require_mode: 'nope'}",
     "rules: [#RULE#], bundle: {require_mode: 'path', excludes: 'a'}",
+    "rules: [#RULE#], bundle: {require_mode: 'path', excludes: ['**/{secrets']}",
+    "rules: [#RULE#], bundle: {require_mode: {name: 'path', sources: {pkg: './src/a', pkg: './src/b'}}}",
+    "rules: [#RULE#], bundle: {require_mode: {name: 'luau', aliases: {'@pkg': './src/a', '@pkg': './src/b'}}}",
+    "rules: [#RULE#], generator: {name: 'retain_lines', column_span: 40}",
+    "rules: [#RULE#], generator: {name: 'retain_lines', bogus: true}",
+    "rules: [#RULE#], generator: {name: 'readable', column_span: 40, bogus: true}",
     "rules: [#RULE#], apply_to_files: 1",
     "rules: [#RULE#], skip_files: '[a'",
     "rules: #RULE#",
@@ -275,11 +281,36 @@ fn check_invalid(text: &str) -> Option<Violation> {
     match guarded(|| json5::from_str::<Configuration>(text)) {
         Err(p) => Some(Violation { finding: None, summary: format!("PANIC reading configuration {}: {}", text, p), replay: json!({"config": text}) }),
         Ok(Err(_)) => None,
-        Ok(Ok(c)) => Some(Violation {
-            finding: None,
-            summary: format!("an invalid configuration is accepted (read as {})\n{}", serde_json::to_string(&c).unwrap_or_default(), text),
-            replay: json!({"kind": "config strictness", "config": text}),
-        }),
+        Ok(Ok(c)) => {
+            let read_as = serde_json::to_string(&c).unwrap_or_default();
+            // accepted when read: processing with it must then report the error for every file
+            let outcome = behaviour(c).unwrap_or_else(|e| e);
+            let first_line = outcome.lines().next().unwrap_or("");
+            let refused = first_line.starts_with("fatal:") || (first_line.starts_with("errors: [") && first_line != "errors: []" && outcome.contains("<absent>") && !outcome.contains("== out/a/x.lua\n--"));
+            if refused && !outcome.contains("PANIC") {
+                None
+            } else {
+                // known finding: a generator without parameters (`retain_lines`) ignores any other key. Attributed only when
+                // the configuration is read exactly as the same text without that key (and the text without it is valid)
+                let mut finding = None;
+                if let Some(start) = text.find("generator: {name: 'retain_lines', ") {
+                    let after = start + "generator: {name: 'retain_lines'".len();
+                    if let Some(end) = text[after..].find('}') {
+                        let without = format!("{}{}", &text[..after], &text[after + end..]);
+                        if let Ok(Ok(c2)) = guarded(|| json5::from_str::<Configuration>(&without)) {
+                            if serde_json::to_string(&c2).unwrap_or_default() == read_as {
+                                finding = Some("unknown-property-of-a-parameterless-generator-is-ignored".to_owned());
+                            }
+                        }
+                    }
+                }
+                Some(Violation {
+                    finding,
+                    summary: format!("an invalid configuration is accepted (read as {}; processing with it: {})\n{}", read_as, first_line, text),
+                    replay: json!({"kind": "config strictness", "config": text}),
+                })
+            }
+        }
     }
 }
 
